@@ -300,6 +300,35 @@ func replayReaderOne(sc *rScenario, realB int, seed int64, stepTimeout time.Dura
 		}
 	}
 
+	// every direct call of the API is guarded: a call that never returns (with all gates open) is a termination violation,
+	// not a hang of the check
+	const callTimeout = 20 * time.Second
+	gRead := func(i int, buf []byte) (callRes, bool) {
+		ch := make(chan callRes, 1)
+		go func() {
+			m, e := r.Read(buf)
+			ch <- callRes{m, e, buf}
+		}()
+		select {
+		case cr := <-ch:
+			return cr, true
+		case <-time.After(callTimeout):
+			res.Status, res.Pred, res.Detail, res.Step = "violation", "termination", fmt.Sprintf("Read did not return within %v with all gates open", callTimeout), i
+			return callRes{}, false
+		}
+	}
+	gClose := func(i int) (error, bool) {
+		ch := make(chan error, 1)
+		go func() { ch <- r.Close() }()
+		select {
+		case e := <-ch:
+			return e, true
+		case <-time.After(callTimeout):
+			res.Status, res.Pred, res.Detail, res.Step = "violation", "termination", fmt.Sprintf("Close did not return within %v", callTimeout), i
+			return nil, false
+		}
+	}
+
 	prev := sc.Init
 	for i, st := range sc.Steps {
 		exp := sc.Exp[i]
@@ -309,16 +338,17 @@ func replayReaderOne(sc *rScenario, realB int, seed int64, stepTimeout time.Dura
 				if !waitPending(i) {
 					return
 				}
-				buf := make([]byte, st.X[0]*S)
-				m, e := r.Read(buf)
-				if !judge(i, callRes{m, e, buf}) {
+				cr, ok := gRead(i, make([]byte, st.X[0]*S))
+				if !ok || !judge(i, cr) {
 					return
 				}
 			case "Close":
 				if !waitPending(i) {
 					return
 				}
-				r.Close()
+				if _, ok := gClose(i); !ok {
+					return
+				}
 				closedByUs = true
 			}
 			continue
@@ -338,7 +368,10 @@ func replayReaderOne(sc *rScenario, realB int, seed int64, stepTimeout time.Dura
 			}()
 			pending = ch
 		case "Close":
-			e := r.Close()
+			e, ok := gClose(i)
+			if !ok {
+				return
+			}
 			closedByUs = true
 			if e != nil {
 				fail(i, "violation", "C17_close_fails", "Close returned "+e.Error())
